@@ -11,6 +11,7 @@ C11 — The tower stays live: no deadlock, no poisoned state, no aborting handle
 -/
 import TeosVerif.Lemmas.Deadlock
 import TeosVerif.Lemmas.Tower
+import TeosVerif.Lemmas.TowerInv
 import TeosVerif.Model.Locks
 import TeosVerif.Model.LockTraces
 
@@ -112,5 +113,81 @@ theorem refused_request_never_aborts (s : Tower) (node : Node) (signer : Option 
 theorem aborted_is_final (cfg : Teos.Cfg) (s : Tower) (node : Node) (op : Op) (site : String)
     (h : s.aborted = some site) : (step cfg s node op).1 = s := by
   cases op <;> simp [step, h]
+
+
+/-! ### history level: no abort site is ever reached; the data stays consistent -/
+
+open Teos in
+/-- **the tower never aborts**: started as `main.rs` starts it (a consistent database, a chain of
+distinct blocks), and fed any history of registrations, submissions (any signer, locator, blob),
+reads, block connections (block hashes not repeated, heights ≥ 6) and disconnections of the tip —
+whatever bitcoind answers at each step — no `unwrap`, `unreachable!` or checked subtraction of the
+model is ever hit: no mutex is poisoned, every later request is served. -/
+theorem tower_never_aborts (cfg : Teos.Cfg) (db : Db) (height : Nat) (blocks : List (Nat × List TxId))
+    (hdb : DbInv db) (hnd : (blocks.map (·.1)).Nodup) (hist : List (Node × Op))
+    (hv : HistoryValid cfg (boot db height blocks) hist) :
+    (runHistory cfg (boot db height blocks) hist).aborted = none :=
+  (tinv_history cfg hist _ (tinv_boot db height blocks hdb hnd) hv).alive
+
+open Teos in
+/-- … and throughout, the database keeps its referential integrity (every appointment has its
+user, every tracker its appointment and a storable status), the users held in memory are exactly
+the users on disk, and the responder's index only points to blocks it still holds -/
+theorem data_consistent_forever (cfg : Teos.Cfg) (db : Db) (height : Nat) (blocks : List (Nat × List TxId))
+    (hdb : DbInv db) (hnd : (blocks.map (·.1)).Nodup) (hist : List (Node × Op))
+    (hv : HistoryValid cfg (boot db height blocks) hist) :
+    let s := runHistory cfg (boot db height blocks) hist
+    DbInv s.db ∧ (∀ u, (s.mem.users u).isSome = (s.db.users u).isSome) ∧ TIInv s.mem.txIndex :=
+  let h := tinv_history cfg hist _ (tinv_boot db height blocks hdb hnd) hv
+  ⟨h.db, h.dom, h.txi⟩
+
+open Teos in
+/-- one step, for any consistent state (not only reachable ones) -/
+theorem step_keeps_invariant (cfg : Teos.Cfg) (s : Tower) (node : Node) (op : Op) (h : TInv s)
+    (hv : OpValid s op) : TInv (step cfg s node op).1 :=
+  tinv_step cfg s node op h hv
+
+open Teos in
+/-- the empty database is consistent (a fresh tower satisfies the premises) -/
+theorem fresh_database_consistent : DbInv Db.empty := DbInv.empty
+
+
+/-! non-vacuity: a concrete history (registration, a submission, the breach, the penalty's block,
+a reorg of that block, a replacement block, a read) satisfies the premises and ends with the
+tracker in place -/
+
+open Teos in
+instance (s : Tower) (op : Op) : Decidable (OpValid s op) := by
+  cases op <;> simp only [OpValid] <;> infer_instance
+
+open Teos in
+def decHistoryValid (cfg : Teos.Cfg) : (s : Tower) → (hist : List (Node × Op)) → Decidable (HistoryValid cfg s hist)
+  | _, [] => isTrue trivial
+  | s, (node, op) :: rest =>
+    have := decHistoryValid cfg (step cfg s node op).1 rest
+    by simp only [HistoryValid]; infer_instance
+
+open Teos in
+instance (cfg : Teos.Cfg) (s : Tower) (hist : List (Node × Op)) : Decidable (HistoryValid cfg s hist) :=
+  decHistoryValid cfg s hist
+
+open Teos in
+def demoNode : Node := { send := fun _ => .ok, get := fun _ => .rpc (-5) }
+def demoCfg : Teos.Cfg := { slots := 5, duration := 400, grace := 6 }
+open Teos in
+def demoHist : List (Node × Op) :=
+  [ (demoNode, .register 1),
+    (demoNode, .add (some 1) 2 (.enc 32 320 260) 7 0),
+    (demoNode, .connect 8 101 [32]),
+    (demoNode, .connect 9 102 [320]),
+    (demoNode, .disconnect 9 102),
+    (demoNode, .connect 10 102 []),
+    (demoNode, .get (some 1) 2) ]
+
+open Teos in
+example : HistoryValid demoCfg (boot Db.empty 100 [(1, []), (2, [])]) demoHist := by decide
+open Teos in
+example : ((runHistory demoCfg (boot Db.empty 100 [(1, []), (2, [])]) demoHist).db.trackers (2, 1)).isSome = true := by
+  decide
 
 end Teos.C11
